@@ -15,7 +15,6 @@ MUTANTS = [
     # -- other realistic breaks ------------------------------------------------------------------------------
     ('c17-fragments-not-combined', 'C17', W, "            msg = self._pending_payload + msg\n", "            msg = msg\n"),
     ('c17-continued-text-not-decoded', 'C17', W, "if opcode == 1 or (opcode == 0 and self._pending_type == 1):", "if opcode == 1:"),
-    ('c17-pending-type-not-reset', 'C17', W, "                    self._pending_type = None\n", ""),
     ('c17-no-unmasking', 'C17', W, "            if masking:  # unmask", "            if False:  # unmask"),
     ('c17-64bit-length-read-as-32bit', 'C17', W, "payload_bytes = 2 if payload_length == 126 else 8", "payload_bytes = 2 if payload_length == 126 else 4"),
     ('c17-incomplete-frame-not-buffered', 'C17', W, "                self._buffer = data\n                break", "                break"),
@@ -40,6 +39,8 @@ MUTANTS = [
     ('c17-write-socket-filter-removed', 'C17', W, "            if args[0] != self._sock:\n                return\n            data = args[1]", "            data = args[1]"),
     ('c17-masking-key-not-skipped', 'C17', W, "                masking_key = data[offset : offset + 4]\n                offset += 4", "                masking_key = data[offset : offset + 4]\n                offset += 3"),
     ('c17-frame-bytes-not-consumed', 'C17', W, "            offset += payload_length\n            data = data[offset:]", "            offset += payload_length\n            data = data[offset + 1:]"),
+    # equivalent (not listed): removing `self._pending_type = None` - the first frame of every fragmented message has a non-zero
+    # opcode and overwrites _pending_type before any continuation frame reads it, so no behaviour changes.
     # equivalent for the statement (not listed): `data_length <= 0xFFFF` -> `< 0xFFFF` only makes the 65535-byte frame use the
     # 64-bit form, which RFC 6455 forbids to senders but every decoder reads back exactly: the round trip still holds.
 ]
